@@ -39,6 +39,7 @@ type Clause struct {
 }
 
 type LoopSpec struct {
+	Ghost    []Clause // Label = name, Src = expression captured at loop entry
 	Inv      []Clause
 	Unroll   bool
 	Modifies []string
@@ -267,6 +268,13 @@ func (db *ContractDB) loadFile(fn string) error {
 				switch f[1] {
 				case "invariant":
 					ls.Inv = append(ls.Inv, mkClause(body))
+				case "ghost":
+					// loop N ghost name = expr
+					kv := strings.SplitN(body, "=", 2)
+					if len(kv) != 2 {
+						return fmt.Errorf("%s:%d: bad ghost clause", fn, ln)
+					}
+					ls.Ghost = append(ls.Ghost, Clause{Label: strings.TrimSpace(kv[0]), Src: strings.TrimSpace(kv[1]), File: filepath.Base(fn), Line: ln})
 				case "unroll":
 					ls.Unroll = true
 				case "modifies":
